@@ -13,6 +13,8 @@ LEVEL = 'proof'
 NEEDS = ['CorrIdentifyGen', 'CorrIdentifyGenConf', 'PyRt', 'IdentifyGenLemmas', 'IdentifyGenConf', 'IdentifyGenConfProofs', 'Bridge', 'BridgeProofs', 'Base', 'Digraph', 'DigraphProofs', 'Identify', 'IdentifyProofs', 'DSep', 'DSepProofs', 'CorrDag', 'IdentifyDSep']
 KNOWN = 'F12: identify_confounders is not always a sufficient adjustment set (algorithmic; call site identify_confounders, clause "sufficient adjustment set")'
 
+ORDER_FNS = [('identify_confounders', identify_confounders, 2)]
+
 
 def refusals():
     """Non-DAG input, unknown nodes and x = y are refused."""
@@ -92,6 +94,8 @@ def check(run, tier, seed):
                         break
     run.coverage['insufficient_sets_seen'] = n_insuff
     run.coverage['of_which_recorded_known_finding'] = n_known
+    D.order_independence(run, 'C18', ORDER_FNS, sizes=(4, 5) if tier == 'quick' else (4, 5), sample6=0 if tier == 'quick' else 400,
+                         rng=__import__('random').Random(seed + 41))
     bad = refusals()
     run.oblige('refusals: non-DAG input / unknown nodes / x = y', not bad, '; '.join(bad))
     for b in bad[:1]:
@@ -100,6 +104,8 @@ def check(run, tier, seed):
 
 def replay(run, path):
     c = json.loads(open(path).read())
+    if c.get('kind') == 'order_dependence':
+        return D.replay_order(run, c, ORDER_FNS)
     r = S.replay_dag(run, path, 'C18')
     if r[7]:
         print('insufficient-adjustment mask', r[7])
